@@ -515,6 +515,7 @@ def _run_reads(shape, res, sink):
         if shape.get("history"):
             S._pu, S._su = units.sym_unit("preP", units.day), units.sym_unit("pres", units.km / units.s)
             S._ou, S._mu = units.sym_unit("preO", units.rad), units.sym_unit("preM", units.rad)
+            S._eu = units.sym_unit("preE", units.one)
             libA, lnpA = S.library(N, with_lnp=True, tag="pre")
             fnA = S.as_file(libA, lnpA)
             u_.read_batch_slice(fnA, cols, slice(0, N), units=tgt)
@@ -538,6 +539,11 @@ def _run_reads(shape, res, sink):
         k = max(1, N - 1)
         rnd = u_.read_random_batch(fn, cols, k, units=tgt, rng=rng)
         nounits = u_.read_batch_slice(fn, ["P"], slice(0, N))
+        # two columns stored in DIFFERENT units and requested in the SAME unit (and one without a requested unit in between)
+        same_tgt = {"omega": units.rad, "M0": units.rad}
+        st1 = u_.read_batch_slice(fn, ["omega", "e", "M0"], slice(0, N), units=same_tgt)
+        st2 = u_.read_batch_idx(fn, ["M0", "omega"], symnp.SymArray(symnp._obj(list(range(N))[::-1]), symnp._I8), units=same_tgt)
+        S._same_target = (st1, st2)
         return lib, lnp, (a, b), sl, idx, ix, k, rnd, nounits
     ex = core.Explorer(max_paths=500)
     twin = False
@@ -559,6 +565,15 @@ def _run_reads(shape, res, sink):
             ok = isinstance(sl, symnp.SymArray) and sl.a.shape == (b - a, 3)
             cl = [z3.BoolVal(bool(ok))] + ([L(sl.a[r_, c]) == L(want(a + r_)[c]) for r_ in range(b - a) for c in range(3)] if ok else [])
             sink.check(path, "reads.slice", core.SB(z3.And(cl)), site="read_batch_slice", describe=desc, isolated=True)
+            st1, st2 = S._same_target
+            fO, fM, fE = S._ou.to(units.rad), S._mu.to(units.rad), 1
+            ok = isinstance(st1, symnp.SymArray) and st1.a.shape == (N, 3) and isinstance(st2, symnp.SymArray) and st2.a.shape == (N, 2)
+            cl = [z3.BoolVal(bool(ok))]
+            if ok:
+                for i in range(N):
+                    cl += [L(st1.a[i, 0]) == L(lib[i][2] * fO), L(st1.a[i, 1]) == L(lib[i][1]), L(st1.a[i, 2]) == L(lib[i][3] * fM)]
+                    cl += [L(st2.a[i, 0]) == L(lib[N - 1 - i][3] * fM), L(st2.a[i, 1]) == L(lib[N - 1 - i][2] * fO)]
+            sink.check(path, "reads.same_target_unit_different_stored_units", core.SB(z3.And(cl)), site="read_batch_*", describe=desc, isolated=True)
             ok = isinstance(ix, symnp.SymArray) and ix.a.shape == (N, 3)
             cl = [z3.BoolVal(bool(ok))]
             if ok:
@@ -684,6 +699,17 @@ def replay(cand):
         full = np.stack([s["s"].to_value(u.km / u.s), s["P"].to_value(u.year)], axis=1)
         if not np.allclose(read_batch(fn, cols, (2, 5), units=tgt), full[2:5], rtol=1e-13):
             bad.append("read_batch(range) returns other rows / units")
+        # two columns stored in different units, requested in the same unit
+        s3 = s.copy()
+        s3.tbl["omega"] = s["omega"].to(u.deg)
+        fn3 = os.path.join(tmpd, "same_target.hdf5")
+        s3.write(fn3, overwrite=True)
+        want3 = np.stack([s["omega"].to_value(u.rad), s["M0"].to_value(u.rad)], axis=1)
+        for sel in ((0, 4), np.array([3, 0, 2])):
+            got3 = np.asarray(read_batch(fn3, ["omega", "M0"], sel, units={"omega": u.rad, "M0": u.rad}))
+            exp3 = want3[sel[0]:sel[1]] if isinstance(sel, tuple) else want3[sel]
+            if got3.shape != exp3.shape or not np.allclose(got3, exp3, rtol=1e-12, atol=1e-14):
+                bad.append("omega stored in deg and M0 in rad, both requested in rad: read_batch returns %s, expected %s" % (got3[0].tolist(), exp3[0].tolist()))
         # every way of asking for a contiguous range: open ends, empty ranges, steps
         nfull = len(full)
         for a_ in (None, 0, 1, 3, nfull):
